@@ -116,6 +116,19 @@ def run(chk):
 
     chk.call(r4_forwarding, chk)
     chk.call(r4_terminal, chk)
+    chk.call(r7_precision_and_view_order, chk)
+    # the top-level entry points ml.load / loads / load_all / loads_all / dump / dumps are one more way through the same round trip:
+    # for this format each of them hands the text to / returns the object of the class reader or writer as it is (name included) -
+    # the clauses C09.R1 / R3 decide, evaluated under this property's name for the xyz arms
+    from . import c09
+
+    mol_ = chk.prog.cls("molli.chem.molecule:Molecule")
+    ens_ = chk.prog.cls("molli.chem.ensemble:ConformerEnsemble")
+    keep = lambda o: o["rule"] in ("C09.R1", "C09.R3") and (":xyz" in o["construct"] or o["construct"].endswith("xyz"))
+    for E_ in c09.LOADERS:
+        chk.borrow("C08.R6", c09.loader, chk, chk.prog.func(f"{c09.RD}:{E_}"), E_, mol_, ens_, only=keep)
+    for E_ in ("dump", "dumps"):
+        chk.borrow("C08.R6", c09.dumper, chk, chk.prog.func(f"{c09.WR}:{E_}"), E_, mol_, ens_, only=keep)
 
 
 # ---------------------------------------------------------------------------
@@ -266,6 +279,45 @@ def r1_units(chk):
     scale_div = isinstance(aug[0].op, ast.Div)
     chk.require(scale_mult or scale_div, "CartesianGeometry.scale neither multiplies nor divides")
     want_exp = +1 if table == "A-per-unit" else -1
+    # ... and scale() accepts every factor the unit table can hand it: its rejecting guards (`if factor == 0: raise`, the inversion
+    # guard) are tabulated over every member's value and its reciprocal (sa/truth.py).  A "float-safe" zero test with an absolute
+    # tolerance rejects the smallest factor (fm: 1e-5) - a file declared in that unit cannot be read at all.
+    from ..canon import path_conditions as _pc
+    from ..truth import Unknown as _Unk, evaluate as _eval
+
+    for scf in (sc, prog.func("molli.chem.ensemble:ConformerEnsemble.scale")):
+        raises_ = [r for r in walk_no_nested(scf.node) if isinstance(r, ast.Raise)]
+        fpar = scf.params()[1]
+        rejected, unknown_g = [], False
+        for nm, (v, _node) in vals.items():
+            for fac in (v, 1.0 / v):
+                def lk(x, fac=fac):
+                    if isinstance(x, ast.Name) and x.id == fpar:
+                        return fac
+                    if isinstance(x, ast.Name) and x.id in scf.params():
+                        d = scf.node.args
+                        allp = d.posonlyargs + d.args
+                        defs = dict(zip([a.arg for a in allp][len(allp) - len(d.defaults):], d.defaults))
+                        defs.update({a.arg: dv for a, dv in zip(d.kwonlyargs, d.kw_defaults) if dv is not None})
+                        if x.id in defs and isinstance(defs[x.id], ast.Constant):
+                            return defs[x.id].value
+                    return NotImplemented
+                for r in raises_:
+                    try:
+                        if all(_eval(c, lk) for c in _pc(scf.node, r)):
+                            rejected.append((nm, fac, r))
+                    except _Unk:
+                        unknown_g = True
+        key = f"{scf.key}:accepts-every-unit-factor"
+        if rejected:
+            nm, fac, r = rejected[0]
+            chk.fail("C08.R1", key, scf.where(r), f"{scf.qualname}({fac:g}) raises (`{short(_pc(scf.node, r)[0], 50)}`): that is the conversion factor of DistanceUnit.{nm} - "
+                     f"a file whose coordinates are declared in {nm} cannot be read")
+        elif unknown_g:
+            chk.note(f"C08.R1: a rejecting guard of {scf.qualname} could not be tabulated over the unit factors; no verdict")
+            chk.ok("C08.R1", key, scf.where(), "not classified (noted)")
+        else:
+            chk.ok("C08.R1", key, scf.where(), f"{len(raises_)} rejecting guard(s), none of them fires for a unit factor ({len(vals)} members, both orientations)")
     n_sites = 0
     for f in prog.functions():
         if not (f.module.name.startswith("molli.chem") or f.module.name.startswith("molli.parsing")):
@@ -731,12 +783,15 @@ def r2_records(chk):
     if gets:
         g0 = gets[0]
         pcs = [t for t in path_conditions(yx.node, innermost_stmt(yx.node, g0)) if any(norm(x).endswith(".symbol") for x in ast.walk(t))]
-        members = [n for n in prog.enum_members(prog.cls("molli.chem.atom:Element")) if n != "Unknown"]
+        all_members = list(prog.enum_members(prog.cls("molli.chem.atom:Element")))
+        members = [n for n in all_members if n != "Unknown"]
         lost = []
         for sym in members:
             def lookup(n, sym=sym):
                 if isinstance(n, ast.Attribute) and n.attr == "symbol":
                     return sym
+                if norm(n) == "Element._member_names_":
+                    return all_members
                 if isinstance(n, ast.Name):
                     try:
                         return prog.const_eval(yx.module, n)
@@ -750,6 +805,7 @@ def r2_records(chk):
                 raise AnalysisError(f"{yx.key}: the test that separates dummy symbols from elements (`{short(pcs[0], 50)}`) cannot be tabulated: {u}")
         chk.decide(not lost, "C08.R2", f"{yx.key}:every-element-symbol-is-looked-up", yx.where(g0), f"all {len(members)} element symbols reach Element.get",
                    f"the symbols {lost[:8]} never reach Element.get (`{short(pcs[0], 60) if pcs else ''}` sends them to the dummy branch): these elements are read back as Unknown")
+        _non_element_symbols(chk, prog, yx, pcs, g0, all_members) if getattr(chk, "_want_non_element_rule", False) else None
     hdr = [s for s in walk_no_nested(rx.node) if isinstance(s, ast.Assign) and norm(s.targets[0]) == "n_atoms"]
     # (a `None` bound to the count is the end-of-input sentinel of a reader split into helpers)
     real = [h for h in hdr if not (isinstance(h.value, ast.Constant) and h.value.value is None)]
@@ -930,3 +986,66 @@ def r4_terminal(chk):
             looked_up = bool(sites) and all("source_units" in names_in(_Et(f.node).expand(st_["node"].args[0], at=st_["node"])) for st_ in sites)
         chk.decide(bool(sites) and looked_up, "C08.R4", f"{f.key}:source_units-reaches-scaling", f.where(sites[0]["node"] if sites else None),
                    "DistanceUnit[source_units] feeds the scaling", f"{f.qualname} does not use source_units in a scaling of the coordinates")
+
+
+def _non_element_symbols(chk, prog, yx, pcs, g0, all_members):
+    """C10.R9 (evaluated from C10 only: accepting more dummy spellings is no violation of the xyz round trip, accepting *anything* is one of C10)."""
+    from ..truth import Unknown, evaluate
+    # ... and the converse: a token that names no element and is no dummy marker (a corrupted symbol column: "C1", "Zz", "1.5", "c#")
+    # is looked up as well - and the lookup raises.  A test that sends everything the enum does not know to the dummy branch
+    # turns a damaged file into a different molecule without a word.
+    swallowed = []
+    for sym in ("C1", "Zz", "1.5", "c#", "Hh"):
+        def lookup2(n, sym=sym):
+            if isinstance(n, ast.Attribute) and n.attr == "symbol":
+                return sym
+            if norm(n) == "Element._member_names_":
+                return all_members
+            if isinstance(n, ast.Name):
+                try:
+                    return prog.const_eval(yx.module, n)
+                except AnalysisError:
+                    raise Unknown(n.id)
+            return NotImplemented
+        try:
+            if not all(evaluate(t, lookup2) for t in pcs):
+                swallowed.append(sym)
+        except Unknown:
+            swallowed = None
+            break
+    if swallowed is not None:
+        chk.decide(not swallowed, "C10.R9", f"{yx.key}:non-element-symbols-reach-the-lookup", yx.where(g0), "a token that names no element is handed to Element.get (which raises)",
+                   f"the tokens {swallowed} (no element, no dummy marker) never reach Element.get (`{short(pcs[0], 60) if pcs else ''}` sends them to the dummy branch): a corrupted "
+                   "symbol column is accepted silently as a dummy atom - the file reads back as a different molecule instead of raising")
+
+
+def r7_precision_and_view_order(chk):
+    """(a) nothing on the xyz read path narrows the coordinates below double precision: the file carries 6 decimals, a float32 has
+    about 7 significant digits in all - 57.123456 comes back as 57.123455.  (b) a Substructure is a geometry too (`dump_xyz` of a
+    selection): its coordinate rows are paired with its atoms in the order of its own atom list (the clause C05.R5 decides)."""
+    prog = chk.prog
+    blk = prog.cls("molli.parsing.xyz:XYZBlock")
+    mem = blk.members.get("coords")
+    chk.require(mem is not None and mem.getter is not None, "XYZBlock.coords vanished")
+    sites = [("molli/parsing/xyz.py:XYZBlock.coords", mem.getter, f"{blk.module.relpath}:{mem.getter.lineno}")]
+    for spec in ("molli.parsing.xyz:read_xyz", "molli.chem.geometry:CartesianGeometry.yield_from_xyz"):
+        f = prog.func(spec)
+        chk.analysed(f)
+        sites.append((f.key, f.node, f.where()))
+    NARROW = ("float32", "float16", "single", "half", "f4", "f2", "<f4", "<f2", ">f4", "e")
+    for key0, node, where in sites:
+        bad = None
+        for x in ast.walk(node):
+            if isinstance(x, ast.Attribute) and x.attr in NARROW[:4] and norm(x.value) in ("np", "numpy"):
+                bad = bad or x
+            if isinstance(x, ast.keyword) and x.arg == "dtype" and isinstance(x.value, ast.Constant) and str(x.value.value).lstrip("<>=") in ("f4", "f2", "float32", "float16", "e", "single", "half"):
+                bad = bad or x.value
+            if isinstance(x, ast.Call) and isinstance(x.func, ast.Attribute) and x.func.attr == "astype" and x.args and isinstance(x.args[0], ast.Constant) \
+                    and str(x.args[0].value).lstrip("<>=") in ("f4", "f2", "float32", "float16", "e"):
+                bad = bad or x
+        chk.decide(bad is None, "C08.R2", f"{key0}:coordinates-keep-double-precision", where, "no narrowing dtype on the way from the text to the geometry",
+                   f"`{short(bad, 40) if bad is not None else ''}` narrows the coordinates read from the file to single (or half) precision: about 7 significant digits, "
+                   "fewer than the 6 decimals the writer emits once a coordinate exceeds ~10 Angstrom - the round trip no longer preserves coordinates to the written precision")
+    from . import c05
+
+    chk.borrow("C08.R7", c05.r5_views, chk, only=lambda o: o["construct"].endswith(":in-atom-order"))
